@@ -8,6 +8,7 @@ Extra actions (interpreted by hooks installed on ProgModel):
   ["obs_w", w, v]                           weighted tally observation (weight, value)
   ["obs_p", v] / ["obs_p_rand", stream]     persistent observation (value at the current time)
   ["reinit"]                                try to initialize the running simulator (must be refused)
+  ["cancel_old", k]                         cancel_event on a handle kept from an earlier replication (no effect)
 Streams and the four simulation statistics are created in construct_model, as the docs instruct.
 """
 import math
@@ -90,6 +91,15 @@ def install(model, seeds, with_stats=True, reuse_streams=False, long_lived_produ
         if reuse_streams:
             if m.stream_objects is None or len(m.stream_objects) != len(m.seeds):
                 m.stream_objects = [MersenneTwister(s) for s in m.seeds]
+                if reuse_streams == "updater":
+                    from pydsol.core.streams import StreamSeedUpdater
+                    named = {"s%d" % i: so for i, so in enumerate(m.stream_objects)}
+                    StreamSeedUpdater({"s%d" % i: [sd] for i, sd in enumerate(m.seeds)}).update_seeds(named, 0)
+            elif reuse_streams == "updater":
+                # the experiment idiom: long-lived named streams, seeded for the replication by a StreamSeedUpdater
+                from pydsol.core.streams import StreamSeedUpdater
+                named = {"s%d" % i: so for i, so in enumerate(m.stream_objects)}
+                StreamSeedUpdater({"s%d" % i: [sd] for i, sd in enumerate(m.seeds)}).update_seeds(named, 0)
             else:
                 for so, sd in zip(m.stream_objects, m.seeds):
                     so.set_seed(sd)
@@ -172,6 +182,10 @@ def install(model, seeds, with_stats=True, reuse_streams=False, long_lived_produ
         elif k == "obs_p_rand" and with_stats and ns:
             m.prod["p"].fire_timed(sim.simulator_time, ET["p"],
                                    float(m.streams[a[1] % ns].next_int(0, 5)))
+        elif k == "cancel_old":
+            # cancel an event of an EARLIER replication (a handle the model kept): nothing to cancel, no effect
+            if m.old_events:
+                sim.cancel_event(m.old_events[a[1] % len(m.old_events)])
         elif k == "reinit":
             if not sim.is_starting_or_running():
                 return                   # only 'initialising while running' is specified (not from construct_model)
@@ -185,7 +199,7 @@ def install(model, seeds, with_stats=True, reuse_streams=False, long_lived_produ
     model.extra_action = action
 
 
-def stoch_actions(with_stats=True, reinit=False):
+def stoch_actions(with_stats=True, reinit=False, cancel_old=False):
     """factory for program_strategy(extra_actions=...)"""
     def make(clock):
         node = st.integers(0, 999)
@@ -213,6 +227,8 @@ def stoch_actions(with_stats=True, reinit=False):
             ]
         if reinit:
             acts.append((2, st.tuples(st.just("reinit"))))
+        if cancel_old:
+            acts.append((4, st.tuples(st.just("cancel_old"), st.integers(0, 39))))
         return acts
     return make
 
